@@ -93,6 +93,37 @@ def build_goal_state(gs, index, lanelet_map):
     return getattr(S, gs["cls"])(time_step=t, **kw)
 
 
+def _through_xml(gs, region):
+    import os
+    import shutil
+    import tempfile
+    from commonroad.common.file_reader import CommonRoadFileReader
+    from commonroad.common.file_writer import CommonRoadFileWriter, OverwriteExistingFile
+    from commonroad.planning.planning_problem import PlanningProblemSet
+    from commonroad.scenario.lanelet import LaneletNetwork
+    from commonroad.scenario.scenario import Scenario, Tag
+    lanelets = [Lanelet(np.array(ll["left"], dtype=float), np.array(ll["center"], dtype=float),
+                        np.array(ll["right"], dtype=float), lid) for ll, lid in zip(gs["pos"]["ll"], gs["pos"]["ids"])]
+    sc = Scenario(0.1)
+    sc.add_objects(LaneletNetwork.create_from_lanelet_list(lanelets, cleanup_ids=False))
+    init = S.InitialState(**dict(INITIAL, position=np.array(INITIAL["position"])))
+    pps = PlanningProblemSet([PlanningProblem(1, init, region)])
+    d = tempfile.mkdtemp(prefix="crverif-c08-")
+    try:
+        path = os.path.join(d, "s.xml")
+        import contextlib
+        import io
+        import warnings
+        with warnings.catch_warnings(), contextlib.redirect_stdout(io.StringIO()):
+            warnings.simplefilter("ignore")
+            CommonRoadFileWriter(sc, pps, "a", "b", "c", {Tag.URBAN}, decimal_precision=12).write_to_file(
+                path, OverwriteExistingFile.ALWAYS)
+            _, pps2 = CommonRoadFileReader(path).open()
+    finally:
+        shutil.rmtree(d, ignore_errors=True)
+    return pps2.planning_problem_dict[1].goal
+
+
 def build_region(goal):
     lanelet_map = {}
     states = [build_goal_state(gs, i, lanelet_map) for i, gs in enumerate(goal)]
@@ -332,6 +363,14 @@ def check_case(r, ctx):
         back = geom.rot([-t[0], -t[1]], a)
         region.translate_rotate(np.array(back), -a)
         moved_back = True
+    if r.get("route") == "xml-file" and len(goal) == 1 and goal[0]["pos"] is not None and \
+            goal[0]["pos"]["k"] == "lanelets" and goal[0]["ori"] is None and goal[0]["vel"] is None and \
+            all(isinstance(v, int) and not isinstance(v, bool) for v in goal[0]["t"]):
+        # the goal (given by lanelet references) has been written to an XML file and read back: the region that is
+        # checked is the one the reader built (one process reads many such files with recurring lanelet ids)
+        region = _through_xml(goal[0], region)
+        moved_back = True      # coordinates went through 12 decimals: exact boundary cases become don't-cares
+        ctx.label("region-read-from-xml")
     if r.get("route"):
         ctx.label("region-" + r["route"])
     if r.get("stream_exhausted"):
@@ -437,7 +476,7 @@ OPTS = {
 
 
 def strategy(name):
-    return lambda tier: st.tuples(gg.case_strategy(OPTS[name]), st.sampled_from([None, None, None, "deepcopy", "pickle", "moved-and-back", "shapes-via-setters"])
+    return lambda tier: st.tuples(gg.case_strategy(OPTS[name]), st.sampled_from([None, None, None, "deepcopy", "pickle", "moved-and-back", "shapes-via-setters", "xml-file"])
                                   ).map(lambda t: dict(t[0], route=t[1]))
 
 
